@@ -1,0 +1,13 @@
+//go:build verif
+
+package webdav
+
+import "github.com/emersion/go-webdav/internal"
+
+// Composition harnesses for the deductive verifier in /verif (govc); see
+// internal/verif_harness.go. Nothing here is compiled without the verif tag.
+
+// an entity tag announced in an ETag header is accepted back in a conditional header
+func verifETagHeaderRoundTrip(s string) (string, error) {
+	return ConditionalMatch(internal.ETag(s).String()).ETag()
+}
